@@ -59,6 +59,38 @@ def lv_pack_summary_is_exact(value: Bytes, tamper: Bool, vl: IntRange(0, 255)):
         ensures("same-type", kind_of(real) == kind_of(summ))
 
 
+@summary(LVM + "CfdpLv.unpack")
+def lv_unpack_summary(cls, raw_bytes):
+    """fork-free rewriting of CfdpLv.unpack for `bytes` input: the library returns cls(bytes()) for a zero length octet and
+    cls(raw_bytes[1:1 + n]) otherwise; for a `bytes` buffer the empty slice IS bytes(), so no case split is needed.  Any other
+    buffer type takes the library's own steps.  Equivalence with the real method: obligation CfdpLv.unpack/summary."""
+    detected_len = raw_bytes[0]
+    if 1 + detected_len > len(raw_bytes):
+        raise ValueError("Detected length exceeds size of passed bytearray")
+    if kind_of(raw_bytes) == "bytes":
+        return cls(value=raw_bytes[1:1 + detected_len])
+    if detected_len == 0:
+        return cls(value=bytes())
+    return cls(value=raw_bytes[1:1 + detected_len])
+
+
+def lv_unpack_summary_check(raw):
+    real = outcome(CfdpLv.unpack, raw)
+    summ = outcome(lv_unpack_summary, CfdpLv, raw)
+    ensures("same-outcome", both(iff(real.ok, summ.ok), exc_kind(real) == exc_kind(summ)))
+    if real.ok and summ.ok:
+        ensures("same-state", both(real.value.value == summ.value.value, real.value.value_len == summ.value.value_len,
+                                   kind_of(real.value.value) == kind_of(summ.value.value), same_state(real.value, summ.value)))
+
+
+@obligation(["C06"], "CfdpLv.unpack/summary", verifies=[LVM + "CfdpLv.unpack"])
+def lv_unpack_summary_is_exact(raw: Bytes, raw_arr: BytesArr()):
+    """the summary used at the call sites of this file behaves exactly as the real CfdpLv.unpack (same exception class or same
+    object state including the type of the value), for bytes and for bytearray buffers"""
+    lv_unpack_summary_check(raw)
+    lv_unpack_summary_check(raw_arr)
+
+
 def layout_clauses(raw, crc, body):
     """raw == body ++ T.  With the CRC flag the clause is split: first everything before the trailer (a lemma for the solver, which
     otherwise has to prove the equality of two sequences inside crc16(.)), then the whole PDU"""
@@ -398,3 +430,104 @@ def finished_pack_list(mode: EnumOf(TransmissionMode), crc: EnumOf(CrcFlag), lar
     ensures("accessors", both(is_same(pdu.file_store_responses, responses), is_same(pdu.fault_location, params.fault_location)))
     ensures("pack-twice", pdu.pack() == raw)
     ensures("caller-params-untouched", same_state(params, psnap, ignore=("tlv",)))
+
+
+def fin_rt_clauses(pdu, raw, suffix, conf, cc, dc, fs, fw, fv, items):
+    o = outcome(FinishedPdu.unpack, raw + suffix)
+    ensures("decoded-or-refused", o.ok or o.raised(ValueError, InvalidCrc))
+    ensures("exact-pdu-accepted", implies(len(suffix) == 0, o.ok))
+    if o.ok:
+        g = o.value
+        ensures("rt-codes", both(g.condition_code == cc, g.delivery_code == dc, g.file_status == fs))
+        if fw is None:
+            ensures("rt-fault-location", g.fault_location is None)
+        else:
+            ensures("rt-fault-location", both(g.fault_location is not None, g.fault_location.value == be(fw, fv),
+                                              g.fault_location == pdu.fault_location, g.fault_location.packet_len == 2 + fw))
+        ensures("rt-response-count", len(g.file_store_responses) == len(items))
+        if len(g.file_store_responses) == len(items):
+            for (r, (action, stc, n1, n2, msg)) in zip(g.file_store_responses, items):
+                ensures("rt-response", both(r.action_code == action, r.status_code == action * 16 + stc, r.first_file_name == n1,
+                                            implies(two_names(action), r.second_file_name == n2), r.filestore_msg.value == msg,
+                                            r.pack() == filestore_response(action, stc, n1.encode("utf-8"), two_names(action),
+                                                                           n2.encode("utf-8"), msg)))
+        ensures("rt-header", both(g.pdu_header.pdu_conf == conf, g.direction == Direction.TOWARDS_SENDER, g.file_flag == conf.file_flag,
+                                  g.crc_flag == conf.crc_flag, g.transmission_mode == conf.trans_mode, g.directive_type == 5))
+        ensures("rt-lengths", both(g.packet_len == len(raw), g.pdu_header.pdu_data_field_len == pdu.pdu_header.pdu_data_field_len))
+        ensures("rt-equal", both(g == pdu, pdu == g))
+        ensures("rt-repack", g.pack() == raw)
+
+
+@obligation(["C06", "C09", "C04"], "FinishedPdu/roundtrip-scalar", verifies=[FIN + "FinishedPdu.unpack", FIN + "FinishedPdu._unpack_tlvs",
+                                                                             FIN + "FinishedPdu.__eq__"])
+def finished_roundtrip_scalar(mode: EnumOf(TransmissionMode), crc: EnumOf(CrcFlag), large: EnumOf(LargeFileFlag),
+                              segctrl: EnumOf(SegmentationControl), we: W, ws: W, src: Int, seq: Int, dst: Int,
+                              cc: EnumOf(ConditionCode), dc: EnumOf(DeliveryCode), fs: EnumOf(FileStatus), fw: OptionalOf(Choice(4)),
+                              fv: Int, suffix: Bytes):
+    """every header configuration; without / with a fault location (its other widths: FinishedPdu/roundtrip-fault-widths)"""
+    requires(ids_in_range(we, ws, src, seq, dst))
+    requires(cc >= 0)
+    requires(implies(fw is not None, may_carry_fault_location(cc)))
+    conf = mk_conf(we, ws, src, seq, dst, mode, crc, large, Direction.TOWARDS_SENDER, segctrl)
+    pdu = FinishedPdu(conf, FinishedParams(cc, dc, fs, [], mk_fault_location(fw, fv)))
+    raw = pdu.pack()
+    fin_rt_clauses(pdu, raw, suffix, conf, cc, dc, fs, fw, fv, [])
+
+
+@obligation(["C06", "C09", "C04"], "FinishedPdu/roundtrip-fault-widths", verifies=[FIN + "FinishedPdu.unpack", FIN + "FinishedPdu._unpack_tlvs",
+                                                                                   FIN + "FinishedPdu.__eq__"])
+def finished_roundtrip_fault_widths(mode: EnumOf(TransmissionMode), crc: EnumOf(CrcFlag), large: EnumOf(LargeFileFlag), src: Int, seq: Int,
+                                    dst: Int, cc: EnumOf(ConditionCode), dc: EnumOf(DeliveryCode), fs: EnumOf(FileStatus), fw: W, fv: Int,
+                                    suffix: Bytes):
+    """fault location entity IDs of every width (one header width pair)"""
+    we = 1
+    ws = 8
+    requires(ids_in_range(we, ws, src, seq, dst))
+    requires(cc >= 0)
+    requires(may_carry_fault_location(cc))
+    conf = mk_conf(we, ws, src, seq, dst, mode, crc, large, Direction.TOWARDS_SENDER, SegmentationControl.NO_RECORD_BOUNDARIES_PRESERVATION)
+    pdu = FinishedPdu(conf, FinishedParams(cc, dc, fs, [], mk_fault_location(fw, fv)))
+    raw = pdu.pack()
+    fin_rt_clauses(pdu, raw, suffix, conf, cc, dc, fs, fw, fv, [])
+
+
+FS_ITEM = TupleOf(EnumOf(FilestoreActionCode), IntRange(0, 15), AsciiStrLen(80), AsciiStrLen(80), BytesLen(0, 80))
+# (condition code, fault-location width): the three shapes of the end of the TLV area behind the filestore responses
+FIN_TAIL = Choice((ConditionCode.NO_ERROR, None), (ConditionCode.FILESTORE_REJECTION, None), (ConditionCode.FILESTORE_REJECTION, 2))
+
+
+def fin_rt_list(mode, crc, large, src, seq, dst, tail, fv, items, suffix):
+    """round trip with filestore responses: one width pair, fixed delivery code / file status and two condition codes (all of
+    these are quantified in the list-free round-trip harnesses), a bytes buffer (the list-free harnesses decode bytearrays)"""
+    we = 2
+    ws = 4
+    (cc, fw) = tail
+    dc = DeliveryCode.DATA_INCOMPLETE
+    fs = FileStatus.DISCARDED_FILESTORE_REJECTION
+    requires(ids_in_range(we, ws, src, seq, dst))
+    conf = mk_conf(we, ws, src, seq, dst, mode, crc, large, Direction.TOWARDS_SENDER, SegmentationControl.NO_RECORD_BOUNDARIES_PRESERVATION)
+    pdu = FinishedPdu(conf, FinishedParams(cc, dc, fs, mk_responses(items), mk_fault_location(fw, fv)))
+    raw = bytes(pdu.pack())
+    fin_rt_clauses(pdu, raw, suffix, conf, cc, dc, fs, fw, fv, items)
+
+
+@obligation(["C06", "C09", "C04"], "FinishedPdu/roundtrip-list1", bounded="list length <= 1, file names and filestore message <= 80 octets each",
+            verifies=[FIN + "FinishedPdu.unpack", FIN + "FinishedPdu._unpack_tlvs", FIN + "FinishedPdu.__eq__"])
+def finished_roundtrip_list1(mode: EnumOf(TransmissionMode), crc: EnumOf(CrcFlag), large: EnumOf(LargeFileFlag), src: Int, seq: Int, dst: Int,
+                             tail: FIN_TAIL, fv: Int, items: ListOf(FS_ITEM, 1), suffix: Bytes):
+    """at most one filestore response, of any shape (every action and status code, empty or non-empty names and message), followed by
+    nothing / a fault location / the CRC / surplus octets"""
+    fin_rt_list(mode, crc, large, src, seq, dst, tail, fv, items, suffix)
+
+
+@obligation(["C06", "C09", "C04"], "FinishedPdu/roundtrip-list2",
+            bounded="list length == 2, file names and filestore message <= 80 octets each, second item: one non-empty name, non-empty message; fault location present",
+            verifies=[FIN + "FinishedPdu.unpack", FIN + "FinishedPdu._unpack_tlvs", FIN + "FinishedPdu.__eq__"])
+def finished_roundtrip_list2(mode: EnumOf(TransmissionMode), crc: EnumOf(CrcFlag), large: EnumOf(LargeFileFlag), src: Int, seq: Int, dst: Int,
+                             tail: Choice((ConditionCode.FILESTORE_REJECTION, 2)), fv: Int, item0: FS_ITEM, item1: FS_ITEM, suffix: Bytes):
+    """two filestore responses and a fault location: the first response of any shape, directly followed by a second one (single-name
+    action, non-empty name and message: the shapes of an item are all covered as item 0 and in roundtrip-list1, which also has
+    the other shapes of the end of the TLV area)"""
+    (action1, stc1, n1, n2, msg1) = item1
+    requires(both(not two_names(action1), len(n1) > 0, len(msg1) > 0))
+    fin_rt_list(mode, crc, large, src, seq, dst, tail, fv, [item0, item1], suffix)
